@@ -833,6 +833,16 @@ pub struct SimIo {
 }
 
 impl SimIo {
+    pub fn exists(path: &Path) -> bool {
+        let p = path.to_string_lossy().to_string();
+        CURRENT.with(|c| {
+            c.borrow()
+                .as_ref()
+                .map(|core| core.files.borrow().iter().any(|f| f.path == p))
+                .unwrap_or(false)
+        })
+    }
+
     /// Constructor with the signature `qcow2_setup_dev_fn!` expects.
     pub async fn new(path: &Path, ro: bool, _dio: bool) -> SimIo {
         let core = CURRENT
